@@ -219,7 +219,19 @@ func c05sourceModules() *ugo.ModuleMap {
 	mm.AddSourceModule("cyc2", []byte("return import(\"cyc1\")"))
 	mm.AddSourceModule("mod0", []byte("return {bump: func(d) { return d }, get: func() { return 1 }, dep: func() { return 2 }}"))
 	mm.AddSourceModule("mod1", []byte("return {bump: func(d) { return d }, get: func() { return 1 }, dep: func() { return 2 }}"))
+	// files reached through an external importer whose module names (absolute paths) differ from the import texts
+	reads := 0
+	mm.SetExtImporter(memFileImporter(c05files, "/virtual/dir", &reads))
 	return mm
+}
+
+var c05files = map[string]string{
+	"a.ugo": "return import(\"./b.ugo\")\n", "b.ugo": "return import(\"./a.ugo\")\n",
+	"self.ugo": "x := 1\nreturn import(\"./self.ugo\")\n",
+	"c1.ugo":   "return import(\"./c2.ugo\")\n", "c2.ugo": "f := func() { return import(\"./c3.ugo\") }\nreturn f\n", "c3.ugo": "if false {\n  import(\"./c1.ugo\")\n}\nreturn 3\n",
+	"ok.ugo": "return import(\"./leaf.ugo\") + 1\n", "leaf.ugo": "return 41\n",
+	"d1.ugo": "return [import(\"./leaf.ugo\"), import(\"./d2.ugo\")]\n", "d2.ugo": "return import(\"./leaf.ugo\")\n",
+	"broken.ugo": "x := (1 +\n", "mix.ugo": "return [import(\"good\"), import(\"./leaf.ugo\"), import(\"cyc1\")]\n",
 }
 
 func c05options() []c05opt {
@@ -286,6 +298,9 @@ var c05comboProbes = []string{
 	"for i := 0; i < 3; i++ {\n  if i == 1 {\n    continue\n  }\n}\nreturn 1", "try {\n  throw 1\n} catch e {\n  return e\n} finally {\n}",
 	"const k = 2\nf := func(a, ...b) {\n  return a ? b : k * 3\n}\nreturn f(1 + 2, 3)", "m := import(\"good\")\nreturn m",
 	"return 1 + ", "x := := 1", "return undefinedName",
+	"return import(\"./a.ugo\")", "return import(\"./self.ugo\")", "return import(\"./c1.ugo\")", "return import(\"./ok.ugo\")",
+	"return [import(\"./leaf.ugo\"), import(\"./d1.ugo\"), import(\"./ok.ugo\")]", "return import(\"./broken.ugo\")", "return import(\"./missing.ugo\")",
+	"return import(\"./mix.ugo\")", "f := func() {\n  return import(\"./b.ugo\")\n}\nreturn 1", "return import(\"/virtual/dir/a.ugo\")",
 }
 
 // compileGuarded runs fn under recover and a watchdog.
@@ -381,6 +396,11 @@ func (m c05) one(c *core.Ctx, input []byte, opt c05opt, class string) (reached b
 			c.Violation("C05|both", "Compile returned both bytecode and an error", wit("bytecode and error", err.Error()))
 		}
 		msg := err.Error()
+		if strings.Contains(msg, "runaway import chain") {
+			// the in-memory file reader gave up after 10000 reads of a handful of files: the compiler was importing without end
+			c.Violation("C05|nonterminating-import", "Compile keeps importing and compiling the same modules (stopped by the file reader after 10000 reads)", wit("import chain does not terminate", trunc(msg, 300)))
+			return true
+		}
 		switch {
 		case strings.HasPrefix(msg, "Parse Error"):
 			c.Count("parse_errors")
